@@ -2,6 +2,8 @@ package main
 
 import (
 	"encoding/json"
+	"go/constant"
+	"go/types"
 	"fmt"
 	"os"
 	"path/filepath"
@@ -148,6 +150,11 @@ func (r *Run) Do(keys []string) int {
 	var all []*Obligation
 	var reports []*funcReport
 	engineErr := false
+	if c := r.W.blockRangeConstants(); len(c) > 0 {
+		// the term simplifier treats 32-bit constants in the spec-temporary block range as block ids
+		fmt.Fprintf(os.Stderr, "govc: 32-bit integer constants in the reserved block-id range [0x4000000, 0x8000000): %v\n", c)
+		engineErr = true
+	}
 	for _, k := range keys {
 		fi := r.W.Funcs[k]
 		if fi == nil {
@@ -241,31 +248,7 @@ func (r *Run) Do(keys []string) int {
 	if r.Explain {
 		var ex []*Obligation
 		for _, o := range all {
-			cs := conjuncts(o.Goal)
-			if len(cs) <= 1 && o.Goal.Op == "=>" {
-				for _, c := range conjuncts(o.Goal.Args[1]) {
-					cs = append(cs, Implies(o.Goal.Args[0], c))
-				}
-				cs = cs[1:]
-			}
-			if len(cs) <= 1 && o.Goal.Op == "or" {
-				// (or !a (and b1 b2 ..)) -> one goal per b_i
-				var rest []*Term
-				var conj *Term
-				for _, a := range o.Goal.Args {
-					if a.Op == "and" && conj == nil {
-						conj = a
-					} else {
-						rest = append(rest, a)
-					}
-				}
-				if conj != nil {
-					cs = nil
-					for _, c := range conj.Args {
-						cs = append(cs, Or(append(append([]*Term{}, rest...), c)...))
-					}
-				}
-			}
+			cs := splitGoal(o.Goal, 0)
 			if len(cs) <= 1 || o.Kind == "cover" || o.Kind == "law" {
 				ex = append(ex, o)
 				continue
@@ -366,5 +349,83 @@ func (w *World) globalWriteScan() []*Obligation {
 		}
 	}
 	w.scanned = scanned
+	return out
+}
+
+// splitGoal: a goal as a list of goals whose conjunction it is: conjunctions are flattened, implications and
+// disjunctions are distributed over one conjunctive member (recursively, bounded).
+func splitGoal(t *Term, depth int) []*Term {
+	if depth > 6 {
+		return []*Term{t}
+	}
+	switch t.Op {
+	case "and":
+		var out []*Term
+		for _, a := range t.Args {
+			out = append(out, splitGoal(a, depth+1)...)
+		}
+		return out
+	case "=>":
+		var out []*Term
+		for _, c := range splitGoal(t.Args[1], depth+1) {
+			out = append(out, Implies(t.Args[0], c))
+		}
+		return out
+	case "or":
+		var rest []*Term
+		var conj *Term
+		for _, a := range t.Args {
+			if a.Op == "and" && conj == nil {
+				conj = a
+			} else {
+				rest = append(rest, a)
+			}
+		}
+		if conj == nil {
+			return []*Term{t}
+		}
+		var out []*Term
+		for _, c := range conj.Args {
+			for _, p := range splitGoal(c, depth+1) {
+				out = append(out, Or(append(append([]*Term{}, rest...), p)...))
+			}
+		}
+		if len(out) > 48 {
+			return []*Term{t}
+		}
+		return out
+	}
+	return []*Term{t}
+}
+
+// blockRangeConstants: 32-bit integer constants of the program that fall into the block-id range reserved for
+// spec temporaries (the simplifier's block rules would misread them); must be empty.
+func (w *World) blockRangeConstants() []string {
+	var out []string
+	seen := map[string]bool{}
+	for _, fn := range w.AllFns {
+		for _, b := range fn.Blocks {
+			for _, in := range b.Instrs {
+				for _, op := range in.Operands(nil) {
+					c, ok := (*op).(*ssa.Const)
+					if !ok || c.Value == nil {
+						continue
+					}
+					bt, ok := c.Type().Underlying().(*types.Basic)
+					if !ok || (bt.Kind() != types.Int32 && bt.Kind() != types.Uint32) {
+						continue
+					}
+					if v, exact := constant.Uint64Val(constant.ToInt(c.Value)); exact && v >= 0x4000000 && v < 0x8000000 {
+						s := fmt.Sprintf("%s: %d", fn.Name(), v)
+						if !seen[s] {
+							seen[s] = true
+							out = append(out, s)
+						}
+					}
+				}
+			}
+		}
+	}
+	sort.Strings(out)
 	return out
 }
